@@ -292,7 +292,7 @@ class AstKindProp(Prop):
     )
 
     def gen_opts(self, r):
-        return {"emit_default_doc": r.random() < 0.6, "word_wrap": r.random() < 0.3, "direct": r.random() < 0.3}
+        return {"emit_default_doc": r.random() < 0.6, "word_wrap": r.random() < 0.3, "direct": r.random() < 0.3, "emitted_before": r.random() < 0.2}
 
     def gen(self, r, i, run):
         full = r.random() < 0.65
@@ -348,6 +348,15 @@ class AstKindProp(Prop):
 
     def conv(self, c):
         ir = self.py_ir(c["ir"])
+        if c["opts"].get("emitted_before"):
+            # the same description object has been through the emitter once already (with default text on); a round
+            # trip must not depend on that (emit_nocopy hands the emitter the object itself)
+            try:
+                kinds.emit_nocopy(self.kind, ir, dict(self.emit_opts(c), emit_default_doc=True))
+            except Exception:
+                pass
+            art = kinds.emit_nocopy(self.kind, ir, self.emit_opts(c))
+            return ir, art, kinds.parse(self.kind, art, via_text=not c["opts"].get("direct"))
         art = kinds.emit(self.kind, ir, self.emit_opts(c))
         # through the emitted TEXT, or (30% of the cases) handing the emitted tree straight to the parser
         return ir, art, kinds.parse(self.kind, art, via_text=not c["opts"].get("direct"))
